@@ -434,8 +434,9 @@ def canon_outcome(o, with_log=None):
 
 
 def canon_model_outcome(m, want_log: bool):
+    """want_log: include the size log when the model says the namespace limit is on (`nsOn`)."""
     if not isinstance(m, dict):
         return m
     if "ok" in m:
-        return ["ok", m["ok"]] + ([m.get("log")] if want_log else [])
+        return ["ok", m["ok"]] + ([m.get("log")] if (want_log and m.get("nsOn")) else [])
     return ["err", m.get("err")]
